@@ -92,19 +92,24 @@ def string_variants(cs, bo, tier):
     """-> list of (label, StrEnc, kind) ; kind tells how the packet family is generated."""
     codec = _codec(cs, bo)
     u = unit_width(codec)
-    fixed_lengths = {1: [8, 12, 16, 24, 32], 2: [16, 24, 32, 40], 4: [32, 40, 64]}[u]
+    fixed_lengths = {1: [8, 12, 16, 24, 32, 64, 136, 320], 2: [16, 24, 32, 40, 128, 336], 4: [32, 40, 64, 256]}[u]
     delims = [("whole", None, None)] + [("term" + ("NUL" if i == 0 else "X"), th, None) for i, th in enumerate(term_hexes(cs, bo))] + \
              [("lead3", None, 3), ("lead8", None, 8), ("lead16", None, 16)]
     out = []
     for dname, term, lead in delims:
         extra = lead or 0
         for L in fixed_lengths:
+            if L > 64 and tier == "quick" and dname in ("termX", "lead3"):
+                continue
             if L + 0 <= extra:
                 continue
             out.append((f"str:{dname}:fixed{L + extra if lead else L}", StrEnc(Fixed(L + extra if lead else L), cs, bo, term, lead), ("fixed", L + extra if lead else L)))
         lk = Lookup((((Cmp("SEL", "==", "0"),), 16.0 + extra), ((Cmp("SEL", "==", "1"), Cmp("LEN", ">=", "0")), 32.0 + extra),
                      ((Cmp("SEL", "==", "2"),), 0.0)))
         out.append((f"str:{dname}:lookup", StrEnc(lk, cs, bo, term, lead), ("lookup", (16 + extra, 32 + extra, 0, 0))))
+        # overlapping criteria: the FIRST matching entry wins, whatever was decoded before (packets come in the order SEL 0,1,2,3)
+        lko = Lookup((((Cmp("SEL", "==", "3"),), 32.0 + extra), ((Cmp("SEL", ">=", "1"),), 16.0 + extra), ((Cmp("SEL", ">=", "0"), Cmp("LEN", "<=", "255")), 0.0)))
+        out.append((f"str:{dname}:lookup-overlap", StrEnc(lko, cs, bo, term, lead), ("lookup", (0, 16 + extra, 16 + extra, 32 + extra))))
         for adj in ADJUSTMENTS:
             for ref, use_cal in (("LEN", True), ("LEN", False), ("LENC", True), ("LENC", False)):
                 if tier == "quick" and ref == "LENC" and adj in ((8, 8), (1, -8)):
@@ -120,6 +125,8 @@ def binary_variants(tier):
         out.append((f"bin:fixed{L}", BinEnc(Fixed(L)), ("fixed", L)))
     lk = Lookup((((Cmp("SEL", "==", "0"),), 12.0), ((Cmp("SEL", "==", "1"), Cmp("LEN", ">=", "0")), 16.0), ((Cmp("SEL", "==", "2"),), 0.0)))
     out.append(("bin:lookup", BinEnc(lk), ("lookup", (12, 16, 0, 0))))
+    lko = Lookup((((Cmp("SEL", "==", "3"),), 32.0), ((Cmp("SEL", ">=", "1"),), 8.0), ((Cmp("SEL", ">=", "0"), Cmp("LEN", "<=", "255")), 20.0)))
+    out.append(("bin:lookup-overlap", BinEnc(lko), ("lookup", (20, 8, 8, 32))))
     for adj in ADJUSTMENTS:
         for ref, use_cal in (("LEN", True), ("LEN", False), ("LENC", True), ("LENC", False)):
             d = Dyn(ref, use_cal, adj[0] if adj else None, adj[1] if adj else None)
@@ -176,7 +183,7 @@ def packets_for(label, enc, kind, cs, bo, offset, max_units, is_string):
         for fb in field_contents(enc, cs, bo, L, max_units, is_string):
             yield 0, L & 0xFF, fb
     elif kind[0] == "lookup":
-        for sel in (0, 1, 2, 3):
+        for sel in (0, 1, 2, 3, 1, 3, 0):
             L = length_from(kind, 0, sel)
             conts = list(field_contents(enc, cs, bo, L, min(max_units, 2), is_string))
             for fb in conts[:: max(1, len(conts) // 40)]:
@@ -210,7 +217,7 @@ def field_contents(enc, cs, bo, L, max_units, is_string):
         if body_L < 0:
             yield "1" * L
             return
-        tags = sorted(set([0, 8, 16, 24, 32, 40, 7, 12, body_L, body_L + 8, (1 << lead) - 1]))
+        tags = sorted(set([0, 8, 16, 24, 32, 40, 7, 12, body_L, body_L + 8, (1 << lead) - 1, body_L - 8, body_L // 16 * 8, 248, 256, 264]))
         tags = [tg for tg in tags if 0 <= tg < (1 << lead)]
         bodies = contents(cs, bo, body_L, max_units) if body_L else [""]
         step = max(1, len(bodies) // (25 if lead != 8 else 60))
@@ -295,7 +302,7 @@ def run(ctx):
         "programs": tally.programs,
         "exhaustive": True,
         "bound": ("strings: 12 charset/byte-order configurations x {whole buffer, NUL terminator, 'X' terminator, leading size 3/8/16} x "
-                  "{fixed lengths incl. non-byte, discrete lookup (3 entries incl. value 0, and no match), dynamic reference LEN/LENC raw/calibrated x "
+                  "{fixed lengths incl. non-byte and long buffers (up to 42 bytes), discrete lookup (3 entries incl. value 0, and no match; and 3 entries with OVERLAPPING criteria decoded in several orders), dynamic reference LEN/LENC raw/calibrated x "
                   "adjustments (8,0),(8,8),(1,0),(1,-8),none} x "
                   f"bit offsets {offsets} x every content over a 5-symbol alphabet for <= {3 if ctx.quick else 4} code units (every size-tag value family); "
                   "binary: every fixed length 1..40 bits, lookup, dynamic lengths 0..40 bits, offsets 0..7, pattern family"),
